@@ -86,18 +86,34 @@ impl StorageRecords {
         }
     }
 
-    pub fn set_record(&mut self, record: StorageRecord) {
+    pub fn set_record(&mut self, record: StorageRecord) -> Result<(), DbError> {
         if record.index == 0 {
             self.mark_free(record.pos, record.size);
         } else {
             let index = record.index as usize;
 
             if self.records.len() <= index {
+                let additional = index
+                    .checked_add(1)
+                    .map(|len| len - self.records.len())
+                    .ok_or_else(|| Self::invalid_index(record.index))?;
+                self.records
+                    .try_reserve(additional)
+                    .map_err(|_| Self::invalid_index(record.index))?;
                 self.records.resize(index + 1, StorageRecord::default());
             }
 
             self.records[index] = record;
         }
+
+        Ok(())
+    }
+
+    fn invalid_index(index: u64) -> DbError {
+        DbError::storage(
+            DbErrorType::InvalidIndex,
+            format!("Record index ({index}) is too large"),
+        )
     }
 
     pub fn rebuild_free_index(&mut self) {
